@@ -298,8 +298,13 @@ def type_shard(shard, rec, rng, tmp):
             picks.append(rng.choice((cb, rb)))
         else:
             picks.append(g.build(rng.choice(others))[0])
+    # binary content whose first / last byte has the value of an ASCII blank (a front-end must not "tidy" it away)
+    edge = [b"\x00\x0a", b"\x20\x00\x00\x00", b"\x00\x04\x0d\x0a\x09\x20", b"\x0b"][shard.get("start", 0) % 4]
+    picks.append(edge)
     for i, data in enumerate(picks):
         fmt = ("binary", "hex", "auto-hex")[(i + shard.get("start", 0)) % 3]
+        if data is edge:
+            fmt = "binary"
         if fmt == "binary" or not data:
             fmt = "binary"
             p = write(tmp, f"ty{i}.bin", data)
